@@ -4,6 +4,7 @@ import (
 	"errors"
 	"fmt"
 	"strconv"
+	"sync"
 
 	"log/slog"
 
@@ -38,6 +39,7 @@ type api struct {
 	buffer     *bus.SQE[t_api.Request, t_api.Response]
 	subsystems []Subsystem
 	done       bool
+	mu         sync.RWMutex // guards done against concurrent EnqueueSQE calls
 	errors     chan error
 	metrics    *metrics.Metrics
 }
@@ -96,10 +98,18 @@ func (a *api) Stop() error {
 }
 
 func (a *api) Shutdown() {
+	// wait for enqueues that have already seen done == false, otherwise they may put a
+	// request on the queue after the system loop has found it empty and returned
+	a.mu.Lock()
+	defer a.mu.Unlock()
+
 	a.done = true
 }
 
 func (a *api) Done() bool {
+	a.mu.RLock()
+	defer a.mu.RUnlock()
+
 	return a.done && len(a.sq) == 0
 }
 
@@ -164,7 +174,9 @@ func (a *api) EnqueueSQE(sqe *bus.SQE[t_api.Request, t_api.Response]) {
 
 	// we must wait to close the channel because even in a select
 	// sending to a closed channel will panic
+	a.mu.RLock()
 	if a.done {
+		a.mu.RUnlock()
 		sqe.Callback(nil, t_api.NewError(t_api.StatusSystemShuttingDown, nil))
 		return
 	}
@@ -172,7 +184,9 @@ func (a *api) EnqueueSQE(sqe *bus.SQE[t_api.Request, t_api.Response]) {
 
 	select {
 	case a.sq <- sqe:
+		a.mu.RUnlock()
 	default:
+		a.mu.RUnlock()
 		sqe.Callback(nil, t_api.NewError(t_api.StatusAPISubmissionQueueFull, nil))
 	}
 }
